@@ -158,3 +158,5 @@ def run(ctx):
     ctx.guarded("C04.arms", r_arms)
     ctx.guarded("C04.methods", r_methods)
     ctx.guarded("C04.helpers", r_helpers)
+    import c09
+    ctx.guarded("C04.bareword", lambda c: c09.r_bareword(c, "C04.bareword"))
